@@ -23,22 +23,31 @@ def bcellOfJson (j : Json) : Except String BCell := do
   if let .ok v := j.getObjVal? "leaf" then
     let w ← Val.ofJson v
     if isAtom w then return .leaf w else throw "leaf cell holds a non-atom"
-  if let .ok x := j.getObjVal? "list" then
-    return .list (← (← x.getArr?).toList.mapM jsonNat?)
-  if let .ok x := j.getObjVal? "dict" then
-    let ps ← (← x.getArr?).toList.mapM fun p => do
+  let pairs := fun (x : Json) => do
+    (← x.getArr?).toList.mapM fun p => do
       match p with
       | .arr #[k, v] => pure ((← k.getStr?), (← jsonNat? v))
       | _ => throw "bad dict cell pair"
-    return .dict ps
+  if let .ok x := j.getObjVal? "list" then
+    return .list (← (← x.getArr?).toList.mapM jsonNat?)
+  if let .ok x := j.getObjVal? "tuple" then
+    return .tuple (← (← x.getArr?).toList.mapM jsonNat?)
+  if let .ok x := j.getObjVal? "set" then
+    return .set (← (← x.getArr?).toList.mapM jsonNat?)
+  if let .ok x := j.getObjVal? "dict" then
+    return .dict (← pairs x)
+  if let .ok x := j.getObjVal? "obj" then
+    match x with
+    | .arr #[c, ps] => return .obj (← c.getStr?) (← pairs ps)
+    | _ => throw "bad obj cell"
   throw s!"bad block cell {j.compress}"
 
 /-- Well-formed block: non-empty, every position it mentions exists. -/
 def blockOk (b : Block) : Bool :=
   !b.isEmpty && b.all fun c => match c with
     | .leaf _ => true
-    | .list js => js.all (· < b.length)
-    | .dict kjs => kjs.all (·.2 < b.length)
+    | .list js | .tuple js | .set js => js.all (· < b.length)
+    | .dict kjs | .obj _ kjs => kjs.all (·.2 < b.length)
 
 def blockOfJson (j : Json) : Except String Block := do
   let b ← (← j.getArr?).toList.mapM bcellOfJson
@@ -86,6 +95,10 @@ def opOfJson (j : Json) : Except String Op := do
       (← (← (← j.getObjVal? "bs").getArr?).toList.mapM blockOfJson))
   | "addAt" => pure (.addAt (← pathOfJson (← j.getObjVal? "path")) (← blk "b"))
   | "dictSetAt" => pure (.dictSetAt (← pathOfJson (← j.getObjVal? "path")) (← key "k") (← blk "b"))
+  | "attrSetAt" => pure (.attrSetAt (← pathOfJson (← j.getObjVal? "path")) (← key "k") (← blk "b"))
+  | "fmtFrom" => pure (.fmtFrom (← jsonNat? (← j.getObjVal? "src")) (← pathOfJson (← j.getObjVal? "sp"))
+      (← pathOfJson (← j.getObjVal? "path")) (← key "k") (← (← j.getObjVal? "byRef").getBool?))
+  | "fail" => pure .fail
   | "copyKey" => pure (.copyKey (← key "src") (← key "dst"))
   | "shortcutArgsCopy" => pure (.shortcutArgsCopy (← refOfJson (← j.getObjVal? "src")))
   | "fmtSetAt" =>
@@ -94,6 +107,102 @@ def opOfJson (j : Json) : Except String Op := do
       | .error _ => pure []
     pure (.fmtSetAt (← pathOfJson (← j.getObjVal? "path")) (← key "k") (← refOfJson (← j.getObjVal? "src")) keep)
   | _ => throw s!"unknown heap op {o}"
+
+def bcellToJson : BCell → Json
+  | .leaf v => Json.mkObj [("leaf", v.toJson)]
+  | .list js => Json.mkObj [("list", Json.arr (js.map natJ).toArray)]
+  | .tuple js => Json.mkObj [("tuple", Json.arr (js.map natJ).toArray)]
+  | .set js => Json.mkObj [("set", Json.arr (js.map natJ).toArray)]
+  | .dict kjs => Json.mkObj [("dict", Json.arr (kjs.map fun kj => Json.arr #[Json.str kj.1, natJ kj.2]).toArray)]
+  | .obj c kjs => Json.mkObj [("obj", Json.arr #[Json.str c,
+      Json.arr (kjs.map fun kj => Json.arr #[Json.str kj.1, natJ kj.2]).toArray])]
+
+def blockToJson (b : Block) : Json := Json.arr (b.map bcellToJson).toArray
+
+def segToJson : Seg → Json
+  | .key k => Json.str k
+  | .idx i => natJ i
+
+def pathToJson (p : Path) : Json := Json.arr (p.map segToJson).toArray
+
+/-- inverse of `opOfJson` -/
+def opToJson : Op → Json
+  | .start b => Json.mkObj [("o", "start"), ("b", blockToJson b)]
+  | .inCopy k src => Json.mkObj [("o", "inCopy"), ("key", Json.str k), ("src", refToJson src)]
+  | .inAlias k src => Json.mkObj [("o", "inAlias"), ("key", Json.str k), ("src", refToJson src)]
+  | .configvarsCopy => Json.mkObj [("o", "configvarsCopy")]
+  | .configvarsAlias => Json.mkObj [("o", "configvarsAlias")]
+  | .unsetIn k => Json.mkObj [("o", "unsetIn"), ("key", Json.str k)]
+  | .setKey k b => Json.mkObj [("o", "setKey"), ("key", Json.str k), ("b", blockToJson b)]
+  | .appendAt p b => Json.mkObj [("o", "appendAt"), ("path", pathToJson p), ("b", blockToJson b)]
+  | .extendAt p bs => Json.mkObj [("o", "extendAt"), ("path", pathToJson p), ("bs", Json.arr (bs.map blockToJson).toArray)]
+  | .addAt p b => Json.mkObj [("o", "addAt"), ("path", pathToJson p), ("b", blockToJson b)]
+  | .dictSetAt p k b => Json.mkObj [("o", "dictSetAt"), ("path", pathToJson p), ("k", Json.str k), ("b", blockToJson b)]
+  | .attrSetAt p k b => Json.mkObj [("o", "attrSetAt"), ("path", pathToJson p), ("k", Json.str k), ("b", blockToJson b)]
+  | .copyKey src dst => Json.mkObj [("o", "copyKey"), ("src", Json.str src), ("dst", Json.str dst)]
+  | .shortcutArgsCopy src => Json.mkObj [("o", "shortcutArgsCopy"), ("src", refToJson src)]
+  | .fmtSetAt p k src keep =>
+    let base : List (String × Json) := [("o", Json.str "fmtSetAt"), ("path", pathToJson p), ("k", Json.str k), ("src", refToJson src)]
+    Json.mkObj (if keep.isEmpty then base else base ++ [("keep", Json.arr (keep.map natJ).toArray)])
+  | .fmtFrom src sp p k byRef => Json.mkObj [("o", "fmtFrom"), ("src", natJ src), ("sp", pathToJson sp),
+      ("path", pathToJson p), ("k", Json.str k), ("byRef", Json.bool byRef)]
+  | .fail => Json.mkObj [("o", "fail")]
+
+def pairsOfJson (j : Json) : Except String (List (String × Val)) := do
+  (← j.getArr?).toList.mapM fun p => do
+    match p with
+    | .arr #[k, v] => pure ((← k.getStr?), (← Val.ofJson v))
+    | _ => throw "bad pair"
+
+def pyFormOfJson (j : Json) : Except String PyForm := do
+  let f ← (← j.getObjVal? "f").getStr?
+  let path := do pathOfJson (← j.getObjVal? "path")
+  let val := fun (k : String) => do Val.ofJson (← j.getObjVal? k)
+  match f with
+  | "append" => pure (.append (← path) (← val "w"))
+  | "extend" => pure (.extend (← path) (← (← (← j.getObjVal? "ws").getArr?).toList.mapM Val.ofJson))
+  | "setItem" => pure (.setItem (← path) (← (← j.getObjVal? "k").getStr?) (← val "w"))
+  | "add" => pure (.add (← path) (← val "a"))
+  | "alias" => pure (.alias (← (← j.getObjVal? "src").getStr?) (← (← j.getObjVal? "dst").getStr?))
+  | "raise" => pure .raise
+  | _ => throw s!"unknown py form {f}"
+
+/-- `{i: kind, …}`: one step-level unit (`RunHeap.Instr`); values in the wire form of `Val`. -/
+def instrOfJson (j : Json) : Except String Instr := do
+  let i ← (← j.getObjVal? "i").getStr?
+  let str := fun (k : String) => do (← j.getObjVal? k).getStr?
+  let val := fun (k : String) => do Val.ofJson (← j.getObjVal? k)
+  match i with
+  | "ctxStart" => pure (.ctxStart (← val "v"))
+  | "shortcutArgs" => pure (.shortcutArgs (← refOfJson (← j.getObjVal? "src")) (← pairsOfJson (← j.getObjVal? "dictIn")))
+  | "parserList" => pure (.parserList (← (← (← j.getObjVal? "args").getArr?).toList.mapM (·.getStr?)))
+  | "enter" =>
+    let ins ← (← (← j.getObjVal? "ins").getArr?).toList.mapM fun p => do
+      match p with
+      | .arr #[k, r] => pure ((← k.getStr?), (← refOfJson r))
+      | _ => throw "bad in pair"
+    pure (.enter ins)
+  | "leave" => pure (.leave (← (← (← j.getObjVal? "keys").getArr?).toList.mapM (·.getStr?)))
+  | "foreachItem" => pure (.foreachItem (← refOfJson (← j.getObjVal? "src")))
+  | "counter" => pure (.counter (← str "name") (← jsonNat? (← j.getObjVal? "n")))
+  | "append" => pure (.append (← str "K") (← val "W") (← (← j.getObjVal? "unpack").getBool?))
+  | "add" => pure (.add (← str "K") (← val "a"))
+  | "set" => pure (.set (← pairsOfJson (← j.getObjVal? "pairs")))
+  | "setf" => pure (.setf (← pairsOfJson (← j.getObjVal? "pairs")))
+  | "setff" => pure (.setff (← str "dst") (← str "src"))
+  | "contextcopy" => pure (.contextcopy (← str "dst") (← str "src"))
+  | "default" => pure (.default (← val "v"))
+  | "merge" => pure (.merge (← val "v"))
+  | "py" => pure (.py (← (← (← j.getObjVal? "forms").getArr?).toList.mapM pyFormOfJson))
+  | "configvars" => pure .configvars
+  | "saveError" =>
+    let onErr ← match j.getObjVal? "onError" with
+      | .ok .null => pure Option.none
+      | .ok r => pure (some (← refOfJson r))
+      | .error _ => pure Option.none
+    pure (.saveError (← val "failure") onErr)
+  | "raise" => pure .raise
+  | _ => throw s!"unknown instruction {i}"
 
 def arenaEq (a b : Arena) : Bool := decide (a = b)
 
@@ -106,22 +215,24 @@ def opsOfJson (j : Json) : Except String (List Op) := do
   (← j.getArr?).toList.mapM opOfJson
 
 /-- `{obj, run, pre: [op…], steps: [[null | nested run, op]…]}`: one call `obj.run(context of run)` -/
-def callOfJson (j : Json) : Except String Call := do
+def callOfJsonWith {α : Type} (dec : Json → Except String α) (j : Json) : Except String (CallOf α) := do
   let steps ← (← (← j.getObjVal? "steps").getArr?).toList.mapM fun e => do
     match e with
-    | .arr #[.null, o] => pure (Option.none, (← opOfJson o))
-    | .arr #[r, o] => pure (some (← jsonNat? r), (← opOfJson o))
+    | .arr #[.null, o] => pure (Option.none, (← dec o))
+    | .arr #[r, o] => pure (some (← jsonNat? r), (← dec o))
     | _ => throw "bad call step"
   pure ⟨← jsonNat? (← j.getObjVal? "obj"), ← jsonNat? (← j.getObjVal? "run"),
-        ← opsOfJson (← j.getObjVal? "pre"), steps⟩
+        ← (← (← j.getObjVal? "pre").getArr?).toList.mapM dec, steps⟩
+
+def callOfJson (j : Json) : Except String Call := callOfJsonWith opOfJson j
 
 /-- The schedule of a request: `sched: [[r, op]…]` as it is, or `calls: [call…]` – a history of calls
     on `Pipeline` objects that start out fresh – turned into operations by `callsSched` under the
     `StepsRunner` rule of the code as it is (`perCall`; `rule: "keepFirst"` for what-if questions). -/
-def schedOfJson (j : Json) : Except String Sched := do
+def schedOfJsonWith {α : Type} (dec : Json → Except String α) (j : Json) : Except String (List (Nat × α)) := do
   match j.getObjVal? "calls" with
   | .ok cs =>
-    let calls ← (← cs.getArr?).toList.mapM callOfJson
+    let calls ← (← cs.getArr?).toList.mapM (callOfJsonWith dec)
     let rule ← match j.getObjVal? "rule" with
       | .ok (.str "keepFirst") => pure RunnerRule.keepFirst
       | .ok (.str "perCall") => pure RunnerRule.perCall
@@ -131,8 +242,10 @@ def schedOfJson (j : Json) : Except String Sched := do
   | .error _ =>
     (← (← j.getObjVal? "sched").getArr?).toList.mapM fun e => do
       match e with
-      | .arr #[r, o] => pure ((← jsonNat? r), (← opOfJson o))
+      | .arr #[r, o] => pure ((← jsonNat? r), (← dec o))
       | _ => throw "bad schedule entry"
+
+def schedOfJson (j : Json) : Except String Sched := schedOfJsonWith opOfJson j
 
 /-- The same heap with the arenas of `regs` computed once and stored (a `Heap` is a function; after
     k operations it is a chain of k closures, and every read would run through all of them again).
@@ -143,11 +256,23 @@ def materialize (regs : List Region) (h : Heap) : Heap :=
     | some e => e.2
     | none => h.arena g⟩
 
+/-- the same for the flags of the runs that are over -/
+def materializeSt (regs : List Region) (runs : List Nat) (st : State) : State :=
+  let table := runs.map fun r => (r, st.dead r)
+  ⟨materialize regs st.heap, fun r => match table.find? (fun e => e.1 == r) with
+    | some e => e.2
+    | none => st.dead r⟩
+
+def plainBlock (b : Block) : Bool := b.all fun c => !c.isObj
+
 /-- `runExec` {defs: [block…], cfg: block, sched: [[r, op]…] | calls: [{obj, run, pre, steps}…], fuel?, watch?: [ref…]} →
-    {steps: [{r, applied, ctx, foreign} after every operation, for the run that moved],
+    {steps: [{r, applied, dead, ctx, foreign} after every operation, for the run that moved; `applied`: the
+       operation had an effect; `dead`: the run is over because this or an earlier operation of it raised],
      sharedSame: every definition/config arena is still what the loader produced,
      sharedSameAt: index of the first operation after which that stopped being true (or null),
-     watch: deep value of each watched address at the end, fixed: all operations are `Op.fixed`} -/
+     watch: deep value of each watched address at the end, final (on request `final: true`): [{r, dead, ctx,
+     foreign}] for every run AT THE END, fixed: all operations are `Op.fixed`,
+     plain: definitions and configuration hold no opaque objects (the domain of the theorems)} -/
 def runExec (j : Json) : Except String Json := do
   let defs ← (← (← j.getObjVal? "defs").getArr?).toList.mapM blockOfJson
   let cfg ← blockOfJson (← j.getObjVal? "cfg")
@@ -159,34 +284,86 @@ def runExec (j : Json) : Except String Json := do
     | .ok w => (← w.getArr?).toList.mapM refOfJson
     | .error _ => pure []
   let n := defs.length
-  let regs : List Region := (List.range n).map Region.defn ++ [Region.config] ++
-    (sched.map fun e => Region.run e.1).eraseDups
-  let h0 := materialize regs (Heap.init defs cfg)
-  let rec go (h : Heap) (s : List (Nat × Op)) (i : Nat) (acc : List Json) (firstBad : Option Nat) :
-      List Json × Heap × Option Nat :=
+  let runs := (sched.map fun e => e.1).eraseDups
+  let regs : List Region := (List.range n).map Region.defn ++ [Region.config] ++ runs.map Region.run
+  let st0 := materializeSt regs runs (State.loaded defs cfg)
+  let rec go (st : State) (s : List (Nat × Op)) (i : Nat) (acc : List Json) (firstBad : Option Nat) :
+      List Json × State × Option Nat :=
     match s with
-    | [] => (acc.reverse, h, firstBad)
+    | [] => (acc.reverse, st, firstBad)
     | (r, op) :: rest =>
-      let applied := (effect h r op).isSome
-      let h1 := materialize regs (step h r op)
-      let obs := Json.mkObj [("r", natJ r), ("applied", Json.bool applied),
-        ("ctx", (deepVal fuel h1 (root r)).toJson),
-        ("foreign", Json.arr ((foreignReach (4 * fuel + 4096) h1 r).map refToJson).toArray)]
+      let applied := !st.dead r && (effect st.heap r op).isSome
+      let st1 := materializeSt regs runs (step st r op)
+      let obs := Json.mkObj [("r", natJ r), ("applied", Json.bool applied), ("dead", Json.bool (st1.dead r)),
+        ("ctx", (deepVal fuel st1.heap (root r)).toJson),
+        ("foreign", Json.arr ((foreignReach (4 * fuel + 4096) st1.heap r).map refToJson).toArray)]
       let fb := match firstBad with
         | some k => some k
-        | none => if sharedSame n h0 h1 then none else some i
-      go h1 rest (i + 1) (obs :: acc) fb
-  let (steps, hEnd, firstBad) := go h0 sched 0 [] none
+        | none => if sharedSame n st0.heap st1.heap then none else some i
+      go st1 rest (i + 1) (obs :: acc) fb
+  let (steps, stEnd, firstBad) := go st0 sched 0 [] none
   pure (Json.mkObj [
     ("steps", Json.arr steps.toArray),
-    ("sharedSame", Json.bool (sharedSame n h0 hEnd)),
+    ("sharedSame", Json.bool (sharedSame n st0.heap stEnd.heap)),
     ("sharedSameAt", match firstBad with | some k => natJ k | none => Json.null),
-    ("watch", Json.arr (watch.map fun x => (deepVal fuel hEnd x).toJson).toArray),
-    ("fixed", Json.bool (sched.all fun e => e.2.fixed))])
+    ("watch", Json.arr (watch.map fun x => (deepVal fuel stEnd.heap x).toJson).toArray),
+    ("final", match j.getObjVal? "final" with
+      | .ok (.bool true) => Json.arr (runs.map fun r => Json.mkObj [("r", natJ r), ("dead", Json.bool (stEnd.dead r)),
+          ("ctx", (deepVal fuel stEnd.heap (root r)).toJson),
+          ("foreign", Json.arr ((foreignReach (4 * fuel + 4096) stEnd.heap r).map refToJson).toArray)]).toArray
+      | _ => Json.null),
+    ("fixed", Json.bool (sched.all fun e => e.2.fixed)),
+    ("plain", Json.bool (defs.all plainBlock && plainBlock cfg))])
+
+/-- `runSteps`: `runExec` at STEP granularity.  The schedule (`sched` / `calls`) holds step-level units
+    (`instrOfJson`) instead of operations; every unit is READ against the state in which it starts
+    (`RunHeap.opsOf`) and its operations are then performed.  Result: as `runExec` (one entry of `steps` per
+    operation), plus `ops`: [[r, op]…] the operations that were read, `nops`: how many each unit has.
+    A unit outside the modelled reading is rejected. -/
+def runSteps (j : Json) : Except String Json := do
+  let defs ← (← (← j.getObjVal? "defs").getArr?).toList.mapM blockOfJson
+  let cfg ← blockOfJson (← j.getObjVal? "cfg")
+  let fuel := match j.getObjVal? "fuel" with
+    | .ok f => (jsonNat? f).toOption.getD 64
+    | .error _ => 64
+  let ksched : KSched ← schedOfJsonWith instrOfJson j
+  let n := defs.length
+  let runs := (ksched.map fun e => e.1).eraseDups
+  let regs : List Region := (List.range n).map Region.defn ++ [Region.config] ++ runs.map Region.run
+  let st0 := materializeSt regs runs (State.loaded defs cfg)
+  let rec goOps (st : State) (r : Nat) (ops : List Op) (acc : List Json) : List Json × State :=
+    match ops with
+    | [] => (acc, st)
+    | op :: rest =>
+      let applied := !st.dead r && (effect st.heap r op).isSome
+      let st1 := materializeSt regs runs (step st r op)
+      let obs := Json.mkObj [("r", natJ r), ("applied", Json.bool applied), ("dead", Json.bool (st1.dead r)),
+        ("ctx", (deepVal fuel st1.heap (root r)).toJson),
+        ("foreign", Json.arr ((foreignReach (4 * fuel + 4096) st1.heap r).map refToJson).toArray)]
+      goOps st1 r rest (obs :: acc)
+  let rec go (st : State) (s : KSched) (acc : List Json) (opsAcc : List Json) (nops : List Nat) :
+      Except String (List Json × List Json × List Nat × State) :=
+    match s with
+    | [] => pure (acc.reverse, opsAcc.reverse, nops.reverse, st)
+    | (r, i) :: rest =>
+      match opsOf st.heap r i with
+      | none => throw s!"out of domain: no reading for step {repr i}"
+      | some ops =>
+        let (acc1, st1) := goOps st r ops acc
+        go st1 rest acc1 ((ops.map fun o => Json.arr #[natJ r, opToJson o]).reverse ++ opsAcc) (ops.length :: nops)
+  let (steps, ops, nops, stEnd) ← go st0 ksched [] [] []
+  pure (Json.mkObj [
+    ("steps", Json.arr steps.toArray),
+    ("ops", Json.arr ops.toArray),
+    ("nops", Json.arr (nops.map natJ).toArray),
+    ("sharedSame", Json.bool (sharedSame n st0.heap stEnd.heap)),
+    ("fixed", Json.bool true),
+    ("plain", Json.bool (defs.all plainBlock && plainBlock cfg))])
 
 def handle (op : String) (j : Json) : Except String Json :=
   match op with
   | "runExec" => runExec j
+  | "runSteps" => runSteps j
   | _ => .error s!"unknown op {op}"
 
 end Pypyr.OpRunHeap
